@@ -34,8 +34,11 @@ func runC16(c *Ctx) {
 		mode := []g.SimulatorMode{g.ICWS94, g.NOP94}[r.Intn(2)]
 		gc := gcfg(cfg, mode)
 		code, start := genWarrior(r, idx, d, m, maxLen)
+		if idx < 6 {
+			code, start = nil, 0 // the empty program (it assembles, and its listing must denote it)
+		}
 		// fields at the sign threshold
-		if r.Chance(1, 2) {
+		if len(code) > 0 && r.Chance(1, 2) {
 			k := r.Intn(len(code))
 			code[k].A = []int{0, m / 2, (m/2 + 1) % m, m - 1}[r.Intn(4)]
 			code[k].B = []int{0, m / 2, (m/2 + 1) % m, m - 1}[r.Intn(4)]
@@ -56,6 +59,11 @@ func runC16(c *Ctx) {
 		}
 		cs := func(listing string) interface{} {
 			return map[string]interface{}{"config": gc, "source": source, "warrior": coreStr(code), "start": start, "listing": listing}
+		}
+		if len(code) == 0 && pm == "" && err != nil {
+			// a reader may refuse the empty program (the '94 load-file reader does): nothing to list then
+			c.Inc("empty_program_refused_by_" + source)
+			return
 		}
 		if pm != "" || err != nil {
 			c.Violate("C16:source-failed:"+source, fmt.Sprintf("could not produce the warrior through the %s: %v %s", source, err, pm), cs(text))
@@ -122,6 +130,10 @@ func runC16(c *Ctx) {
 		}
 		if gotStart != start {
 			c.Violate("C16:start", fmt.Sprintf("the listing's START is instruction %d, the entry point is %d", gotStart, start), cs(listing))
+			return
+		}
+		if len(code) == 0 {
+			c.Inc("empty_warriors_listed")
 			return
 		}
 		c.Set("forms_listed", fmt.Sprintf("%d|%d", d, formOf(code[0])))
